@@ -14,14 +14,15 @@ from ..common import loop_closures, closure_escapes, CompletionSem, resolve_sing
 from ..selftest import Seed
 
 META = {
-    "technique": "loop-closure capture analysis, path enumeration inside the route closures and the websocket listener, registration/source table agreement",
+    "technique": "loop-closure capture analysis, path enumeration inside the route closures and the websocket listener, registration/source table agreement, codec option rule for the websocket JSON encoder/decoder",
     "level_text": "Static proof over all paths of the route closures, the shutdown function and the websocket listener: right handler bound per route, called exactly once, contained (400, no re-raise), GET<->query / POST<->form agreement, shutdown waits for cleanup, one awaited dispatch per message. Quantifies over route tables and paths instead of the single GET the suite performs; does not decide aiohttp/websockets behaviour.",
     "level_note": "decides the structural clause below from source; does not decide the behaviour. Trusted: aiohttp routes a request to the registered coroutine only; default arguments are evaluated at definition time; `await` serialises the listener loop.",
     "explanation": (
         "Static analysis of klongpy/web/sys_fn_web.py and klongpy/ws/sys_fn_ws.py (closure capture repo-wide): free-variable analysis "
         "of closures created in loops, exit-path interpretation of each route closure (handler call count per path, containment "
         "shape), agreement of add_get/add_post with the parameter source, must-wait on shutdown, and per-path counts of "
-        "recv/decode/dispatch in the websocket listener plus exactly-once completion of the result future on the server side."),
+        "recv/decode/dispatch in the websocket listener plus exactly-once completion of the result future on the server side."
+        " R6: encode/decode are json.dumps/json.loads of the argument itself without options that drop, reorder or rewrite entries."),
     "assumptions": ["aiohttp delivers a request only to the coroutine registered for its method and path", "the `.ws.m` dispatch constant names the message handler"],
 }
 
